@@ -319,7 +319,8 @@ def eval_case(c):
     else:
         cplx = model.startswith("Complex")
         Y = (da.isel(lon=slice(0, 2)) * 0.7 + 0.3 * rng.standard_normal((nn, nlat, 2)) + 1.0).rename({"lat": "lat2", "lon": "lon2"})
-        Dx, Dy = (da * (1 + 0.5j), Y * (1 - 0.25j)) if cplx else (da, Y)
+        # genuinely complex fields (a complex multiple of real data has a real covariance and hides conjugation errors)
+        Dx, Dy = (da + 0.6j * da.roll(time=3, roll_coords=False), Y - 0.5j * Y.roll(time=5, roll_coords=False)) if cplx else (da, Y)
         px, py = nlat * nlon, nlat * 2
         k = min(px, py) if not c["use_pca"] else min(c["n_pca"], py)
         k = min(k, nn - 2)
@@ -365,6 +366,8 @@ def eval_struct(c):
         v = rng.standard_normal((nn,) + shape) * rng.uniform(0.5, 2.0, shape) + off
         return xr.DataArray(v * (1 + 0.3j) + 0.2j * rng.standard_normal((nn,) + shape) if c["cplx"] else v, dims=dims, coords=co)
     a, b, d = fld((2, 2), ("lat", "lon"), 3.0), fld((3,), ("x",), -1.0), fld((2,), ("y",), 0.5)
+    if c["struct"] in ("two-sample-dims", "sample-multiindex"):
+        return eval_sample_struct(c, rng)
     if c["struct"] == "list":
         D = [a, b, d][: c["nitems"]]
     elif c["struct"] == "dataset":
@@ -408,9 +411,53 @@ def eval_struct(c):
     return (not msgs), "; ".join(msgs[:3])
 
 
+def eval_sample_struct(c, rng):
+    """transform(inverse_transform(s)) = s for score arrays with their own sample coordinates, when the sample axis is made of two
+    dimensions or is a MultiIndex (single- and cross-set)"""
+    msgs = []
+    if c["struct"] == "two-sample-dims":
+        def mk(off, n1, p):
+            return xr.DataArray(rng.standard_normal((n1, 3, p)), dims=("t", "run", "x"), coords={"t": np.arange(n1) + off, "run": ["a", "b", "c"], "x": np.arange(p)})
+        sd = ("t", "run")
+        mks = lambda off, n1, k: xr.DataArray(rng.standard_normal((n1, 3, k)), dims=("t", "run", "mode"), coords={"t": np.arange(n1) + off, "run": ["a", "b", "c"], "mode": np.arange(1, k + 1)})
+    else:
+        def mk(off, n1, p):
+            d_ = xr.DataArray(rng.standard_normal((n1 * 2, p)), dims=("s", "x"), coords={"yr": ("s", np.repeat(np.arange(n1) + off, 2)), "half": ("s", np.tile([1, 2], n1)), "x": np.arange(p)})
+            return d_.set_index(s=("yr", "half"))
+        sd = ("s",)
+        def mks(off, n1, k):
+            d_ = xr.DataArray(rng.standard_normal((n1 * 2, k)), dims=("s", "mode"), coords={"yr": ("s", np.repeat(np.arange(n1) + off, 2)), "half": ("s", np.tile([1, 2], n1)), "mode": np.arange(1, k + 1)})
+            return d_.set_index(s=("yr", "half"))
+    X = mk(0, 8, 4)
+    for n_new in (8, 5):
+        if c["cross"]:
+            Y = (X.isel(x=slice(0, 3)) * 0.5 + 0.1 * mk(0, 8, 3).values).rename(x="y")
+            m = xeofs.cross.MCA(n_modes=3, use_pca=False, solver="full").fit(X, Y, sd)
+            s = mks(500, n_new, 3)
+            back = m.transform(X=m.inverse_transform(X=s))
+        else:
+            m = xeofs.single.EOF(n_modes=4, solver="full").fit(X, sd)
+            s = mks(500, n_new, 4)
+            back = m.transform(m.inverse_transform(s))
+        try:
+            bb = back.transpose(*s.dims)
+            same_labels = all(bb.indexes[d_].equals(s.indexes[d_]) for d_ in sd)
+        except Exception as e:  # noqa: BLE001
+            msgs.append(f"{n_new} new samples: result cannot be compared ({type(e).__name__}: {str(e)[:60]})")
+            continue
+        if not same_labels:
+            msgs.append(f"{n_new} new samples: transform(inverse_transform(s)) does not carry s's own sample labels")
+        elif bb.shape != s.shape or real.relerr(bb.values, s.values) > 1e-7:
+            msgs.append(f"{n_new} new samples: transform(inverse_transform(s)) != s")
+    return (not msgs), "; ".join(msgs[:3])
+
+
 def bounded_cases(tier, seed):
     rng = np.random.default_rng(seed)
     cases = []
+    for struct in ("two-sample-dims", "sample-multiindex"):
+        for cross in (False, True):
+            cases.append(dict(kind="struct", struct=struct, nitems=1, cplx=False, center=True, std=False, cross=cross, keep=True))
     for struct, nitems in (("da", 1), ("dataset", 1), ("list", 2), ("list", 3)):
         for cplx in (False, True):
             for center, std in ((True, False), (True, True), (False, False)):
@@ -424,7 +471,8 @@ def bounded_cases(tier, seed):
         for alpha in ((0.0, 0.5, 1.0) if "CPCCA" in model else (None,)):
             for use_pca, npc in ((False, 0), (True, 6), (True, 3)):
                 for s_ in (False, True):
-                    cases.append(dict(model=model, alpha=alpha, use_pca=use_pca, n_pca=npc, std=s_, coslat=bool(npc % 2), center=True))
+                    cases.append(dict(model=model, alpha=alpha, use_pca=use_pca, n_pca=npc, std=s_, coslat=bool(npc % 2), center=True,
+                                      keep=model == "ComplexCPCCA" and alpha is not None and alpha < 1 and not use_pca and not s_))
     for i, c in enumerate(cases):
         c["seed"] = int(seed) * 1000 + i
     if tier == "quick":
@@ -434,7 +482,7 @@ def bounded_cases(tier, seed):
 
 def run_bounded(res, tier, seed):
     for c in bounded_cases(tier, seed):
-        sig = {k: c.get(k) for k in ("model", "center", "std", "coslat", "weights", "alpha", "use_pca", "n_pca", "kind", "struct", "nitems", "cplx")}
+        sig = {k: c.get(k) for k in ("model", "center", "std", "coslat", "weights", "alpha", "use_pca", "n_pca", "kind", "struct", "nitems", "cplx", "cross")}
         try:
             ok, detail = eval_struct(c) if c.get("kind") == "struct" else eval_case(c)
         except Exception as e:  # noqa: BLE001
@@ -492,7 +540,7 @@ def run(tier, seed):
             self.agg = agg
 
         def vc(self, function, clause, r, config=""):
-            if function.startswith(("Whitener.inverse_transform", "Whitener.transform_components", "PCA.")):
+            if function.startswith(("Whitener.inverse_transform", "Whitener.transform_components", "PCA.")) or clause in ("T Tinv = I", "Tinv T = I", "dims and labels of T/Tinv"):
                 return self.agg.vc(function, clause, r, config)
             return True
     C16.deductive(res, Only(agg))
